@@ -366,6 +366,20 @@ def run(repo: Repo, chk: Check, thorough: bool = False) -> None:
                f'{len(sites)} emission(s): ' + '; '.join(sites)[:200] if len(sites) >= want else
                f'{len(sites)} privacy-guarded emission(s) of the private marker, {want} kinds of listing entry are built here: a private object is '
                f'listed without the marker the public/private toggle relies on ({"; ".join(sites)[:160]})', f.loc)
+    # the table above was confirmed by hand; this part is derived: every function of the writer that builds a list item / row / block
+    # around a taglink(...) is building listing entries and must emit the marker too
+    for f in sorted(repo.funcs.values(), key=lambda f: f.qn):
+        if not f.mod.name.startswith('pydoctor.templatewriter') or f.qn in MARKER_SITES:
+            continue
+        entries = [c for c in calls_in(f) if isinstance(c.func, ast.Attribute) and norm(c.func.value) == 'tags' and c.func.attr in ('li', 'tr', 'td', 'div', 'span') and
+                   any(isinstance(x, ast.Call) and call_name(x) == 'taglink' for x in ast.walk(c))]
+        if not entries:
+            continue
+        sites = _private_marker_sites(f)
+        chk.ob('R12.4', f'{f.qn} :: private marker at every entry it builds', bool(sites),
+               '; '.join(sites)[:200] if sites else
+               f'`{norm(entries[0])[:70]}` builds an entry per object but never adds the private marker: on this page the "Toggle Private API" button cannot '
+               'hide the private objects', repo.loc(f.mod, entries[0]))
     # a marker accumulated in a local variable must survive to the return: no plain re-assignment after it
     for q in sorted(MARKER_SITES):
         f = repo.func(q)
